@@ -1058,6 +1058,79 @@ func (m *Model) ruleRMW(r *Results) {
 	if len(loops) < 3 {
 		r.undecided(rule, "instance-floor", "-", "found %d read-modify-write loops, 3 were confirmed by hand (Update, sub-document writer, WriteUpdateWithXattrs)", len(loops))
 	}
+	// (f) "the property already exists" (sg-bucket's ErrPathExists) is decided inside the retry loop,
+	// on the document the loop has just read and whose CAS guards the write - not by a separate
+	// look-up before the loop (check-then-act)
+	{
+		loopFns := map[*ssa.Function]*rmwLoop{}
+		for _, lp := range loops {
+			loopFns[lp.Fn] = lp
+		}
+		inTxn := m.inTxnExtent()
+		nExists := 0
+		for _, f := range m.Funcs {
+			if !m.inPkg(f) {
+				continue
+			}
+			for _, b := range f.Blocks {
+				for _, ins := range b.Instrs {
+					ld, ok := ins.(*ssa.UnOp)
+					if !ok || ld.Op != token.MUL {
+						continue
+					}
+					g, ok := ld.X.(*ssa.Global)
+					if !ok || g.Name() != "ErrPathExists" || g.Pkg == nil || g.Pkg.Pkg.Path() != sgbucketPath {
+						continue
+					}
+					// only where the error is produced (returned / stored into the result), not where it is compared
+					produced := false
+					for _, ref := range *ld.Referrers() {
+						switch ref.(type) {
+						case *ssa.Return, *ssa.Store:
+							produced = true
+						}
+					}
+					if !produced {
+						continue
+					}
+					nExists++
+					// decided inside the transaction that writes, or after (dominated by) a read of the retry loop
+					_, inLoop := inTxn[f]
+					if lp := loopFns[f]; lp != nil {
+						for _, rd := range lp.Reads {
+							if rd.Block() == b || rd.Block().Dominates(b) {
+								inLoop = true
+							}
+						}
+					}
+					if !inLoop && f.Parent() == nil {
+						// a helper of the loop body: every call of it is made after a read of a retry loop
+						callers := m.staticCallersOf(f)
+						all := len(callers) > 0
+						for _, cl := range callers {
+							lp := loopFns[cl.Parent()]
+							okc := false
+							if lp != nil {
+								for _, rd := range lp.Reads {
+									if rd.Block() == cl.Block() || rd.Block().Dominates(cl.Block()) {
+										okc = true
+									}
+								}
+							}
+							if !okc {
+								all = false
+							}
+						}
+						inLoop = all
+					}
+					r.check(inLoop, rule, m.declName(f)+" / path-exists refusal decided on the loop's own read", m.instrPos(ld), "the insert is refused inside the retry loop, on the version that was just read", "ErrPathExists is returned outside the read-modify-write loop, i.e. from a look-up that is not the read whose CAS guards the write: two concurrent inserts of the same property can both pass the check and one overwrites the other")
+				}
+			}
+		}
+		if nExists == 0 {
+			r.undecided(rule, "path-exists refusal", "-", "no function returns sgbucket.ErrPathExists")
+		}
+	}
 	// (e) the retry tests recognise a CAS mismatch by a type assertion, which a wrapped error fails:
 	// the mismatch error is never handed to fmt.Errorf
 	usesAssert := false
